@@ -57,7 +57,8 @@ def check(run, ctx):
 
     E1 = run.rule("E1", "calls reachable from rules to ValueError-raising APIs are under a handler or a safe idiom (sub-in-s before s.index(sub); decode of tree-sitter node text; json of rows the tool stored itself; config readers)", floor=20,
                   decides="no input turns into the exit-2 path that _safe_check_rule reserves for configuration errors")
-    scr = repo.func(f"{ORCH}.Orchestrator._safe_check_rule")
+    scr = repo.func_by_role(f"{ORCH}.Orchestrator._safe_check_rule", "the Orchestrator method that calls rule.check(context) under its try/except",
+                            lambda g: any(isinstance(n, ast.Try) for n in ast.walk(g.node)) and any(is_call_named(n, "check") for n in ast.walk(g.node)))
     tr = next((n for n in ast.walk(scr.node) if isinstance(n, ast.Try)), None)
     run.require(tr is not None and len(tr.handlers) >= 2, "_safe_check_rule: handlers vanished")
     last = tr.handlers[-1]
@@ -65,6 +66,18 @@ def check(run, ctx):
         run.ok(E1, "_safe_check_rule generic handler", "other exceptions are logged and the rule yields []")
     else:
         run.finding(E1, "_safe_check_rule", "generic-handler", "_safe_check_rule no longer contains a rule's unexpected exception", scr.loc)
+    # each rule is protected on its own: the try that contains rule.check(...) does not also contain the loop over the rules
+    chk = next((n for n in ast.walk(scr.node) if is_call_named(n, "check")), None)
+    cut = None
+    if chk is not None:
+        for t_ in [n for n in ast.walk(scr.node) if isinstance(n, ast.Try) and any(x is chk for b_ in n.body for x in ast.walk(b_))]:
+            for lp in [n for b_ in t_.body for n in ast.walk(b_) if isinstance(n, (ast.For, ast.While, ast.ListComp, ast.GeneratorExp))]:
+                if any(x is chk for x in ast.walk(lp)):
+                    cut = lp
+    if cut is not None:
+        run.finding(E1, scr.name, f"rule-loop-cut:{norm(cut)[:50]}", f"{scr.name}: the try/except that contains rule.check() also contains the loop over the rules (`{norm(cut)[:60]}`): the first rule that raises ends the loop, and every rule after it silently reports nothing for that file", scr.loc)
+    else:
+        run.ok(E1, f"{scr.name} per-rule protection", "one try per rule: a failing rule does not stop the others")
     for fq in rule_funcs:
         f = repo.funcs[fq]
         for s in cg.out.get(fq, ()):
@@ -139,7 +152,8 @@ def check(run, ctx):
         if not any(q.startswith(fq) for q in found):
             run.ok(E3, fq.replace("src.", "", 1), "frozen swallow site no longer present (table can be trimmed)", nontrivial=False)
     orch_sw = []
-    f = repo.func(f"{ORCH}.Orchestrator._safe_check_rule")
+    f = repo.func_by_role(f"{ORCH}.Orchestrator._safe_check_rule", "the Orchestrator method that calls rule.check(context) under its try/except",
+                            lambda g: any(isinstance(n, ast.Try) for n in ast.walk(g.node)) and any(is_call_named(n, "check") for n in ast.walk(g.node)))
     orch_sw.append(f.name)
     f = repo.func_by_role(f"{ORCH}.Orchestrator._extract_violations_from_future", "turns one worker future into violations (future.result() -> Violation.from_dict)",
                           lambda g: any(is_call_named(n, "result") for n in ast.walk(g.node)) and any(is_call_named(n, "from_dict") for n in ast.walk(g.node)))
@@ -313,6 +327,9 @@ def _safe_idiom(f, call: ast.Call, api: str) -> str | None:
         recv = ast.unparse(call.func.value) if isinstance(call.func, ast.Attribute) else ""
         if recv.endswith(".text") or recv == "text":
             return "decode() of tree-sitter node text - the analyzer encoded the (already decoded) source to UTF-8 itself"
+        rv = call.func.value if isinstance(call.func, ast.Attribute) else None
+        if isinstance(rv, ast.Subscript) and isinstance(rv.slice, ast.Slice) and isinstance(rv.value, ast.Call) and call_name(rv.value) == "encode" and "start_byte" in ast.unparse(rv.slice):
+            return "decode() of a node-boundary slice of the re-encoded source (the text was decoded from UTF-8 before; node boundaries are character boundaries)"
     if api.endswith(".index") or api.endswith(".rindex"):
         if isinstance(call.func, ast.Attribute) and call.args:
             recv, sub = ast.unparse(call.func.value), ast.unparse(call.args[0])
